@@ -2,7 +2,7 @@
 from .. import runner, spec
 from ..harnesses import HStory, HItem, HMixed
 from ..monitors import mon_frame
-from .common import live_part
+from .common import live_part, live3_part
 
 RULE = ('Rich running orders (every story/item carries a unique nested subtree with attributes, mixed text and tails, '
         'markup-significant and non-BMP characters; a decoy story repeats the item IDs; two mosExternalMetadata blocks '
@@ -48,6 +48,7 @@ def run(tier):
                   'monitors': mon, 'opts': {'max_depth': 0}})
     parts.append({'label': 'other-envelope', 'harness': HMixed(envelope='trailing', init_shapes=[('A', 'AB'), ('AB', 'A', 'C')], layouts=('before',), max_list=1, story_L=1, meta_subsets=1, rich=True), 'monitors': mon, 'opts': {'max_depth': 0}})
     parts.append(live_part(tier, mon))
+    parts.append(live3_part(tier, mon))
     return runner.graph_check(
         'C03', tier, parts, rule=RULE, vacuity=vacuity,
         assumptions=['named/carried sets per message class as in DESIGN Appendix A',
